@@ -943,7 +943,7 @@ func (c *fctx) useLemma(name string) {
 		c.used["lemma:"+name] = true
 	}
 	t := c.lemmaFormula(lm)
-	c.assume(t)
+	c.assumeGlobal(t)
 }
 
 func (c *fctx) lemmaFormula(lm *spec.Lemma) string {
@@ -1061,6 +1061,45 @@ func (p *Prog) VerifyLemma(lm *spec.Lemma) *FuncVC {
 	return out
 }
 
+// relevant: path slicing of the assumptions.  A fact generated while block X was executed is kept for an obligation
+// generated in block B when X lies on some path to B (ignoring back edges: the loop head's havoc separates iterations), or
+// when either has no block (facts and obligations stated before or after the body).  A latch block executed once per
+// incoming path keeps only its own copy.  Leaving assumptions out is always sound; the facts left out are guarded by the
+// reachability of blocks that do not lead to B, so they say nothing about the paths the obligation quantifies over.
+func (c *fctx) relevant(a, o pathTag) bool {
+	if a.blk == nil || o.blk == nil {
+		return true
+	}
+	if a.blk == o.blk {
+		return a.copy == o.copy
+	}
+	if a.blk.Parent() != o.blk.Parent() {
+		return true
+	}
+	c.dagMu.Lock()
+	defer c.dagMu.Unlock()
+	if c.dagReach == nil {
+		c.dagReach = map[*ssa.BasicBlock]map[*ssa.BasicBlock]bool{}
+	}
+	r, ok := c.dagReach[a.blk]
+	if !ok {
+		r = map[*ssa.BasicBlock]bool{}
+		var dfs func(b *ssa.BasicBlock)
+		dfs = func(b *ssa.BasicBlock) {
+			for _, s := range b.Succs {
+				if s.Dominates(b) || r[s] {
+					continue // back edge, or seen
+				}
+				r[s] = true
+				dfs(s)
+			}
+		}
+		dfs(a.blk)
+		c.dagReach[a.blk] = r
+	}
+	return r[o.blk]
+}
+
 // Query renders the SMT-LIB query of an obligation.
 func (o *Obligation) Query(prelude string) string {
 	c := o.ctx
@@ -1080,7 +1119,10 @@ func (o *Obligation) Query(prelude string) string {
 		b.WriteString(a)
 		b.WriteString("\n")
 	}
-	for _, a := range c.assumes[:o.nAssume] {
+	for i, a := range c.assumes[:o.nAssume] {
+		if !c.relevant(c.assumeTag[i], o.tag) {
+			continue
+		}
 		b.WriteString("(assert ")
 		b.WriteString(a)
 		b.WriteString(")\n")
